@@ -374,3 +374,142 @@ def stage_pure(ctx, suites, n_quick=3000, n_thorough=60000, widen=4):
                           {"kind": "pure-correspondence", "function": m[0], "args": m[1:-2], "impl": m[-2], "model": m[-1],
                            "broken": "correspondence %s: implementation = Coq model" % m[0]}, no_input=True)
     return {"generated": r["gen"], "functions": r["funcs"], "mismatches": len(mism), "specfails": len(specfail), "widened_cases": widened}
+
+
+# ------------------------------------------------------------------ gateway exploration stage
+
+def viol_context(path, c, ln):
+    """Context of a monitor violation inside its trace: which recorded-finding trigger, if any, precedes it
+    within the same task. Used only to attribute violations to known findings (never to hide new ones)."""
+    lines = open(path).read().split("\n")
+    reqkind = {}
+    for x in lines[:ln]:
+        g = x.split("\t")
+        if g[0] == "REQ" and len(g) > 3:
+            reqkind[(g[1], g[2])] = g[3]
+    ctx = []
+    i = ln - 2
+    while i >= 0:
+        g = lines[i].split("\t")
+        if g[0] == "SCHED":
+            break
+        if g[0] == "RESP" and g[1] == c and reqkind.get((g[1], g[2])) == "get":
+            ctx.append("after-get-response")
+        if g[0] == "SITE":
+            ctx.append("site:" + g[1])
+        i -= 1
+    sites = sorted(set(l.split("\t")[1] for l in lines[:ln] if l.startswith("SITE\t")))
+    return sorted(set(ctx)), sites
+
+
+def match_known(ctx, pid, kind, contexts, sites):
+    for f in ctx.known_db.get("findings", []):
+        if f["property"] != pid or f.get("kind") not in (None, kind):
+            continue
+        need = f.get("context")
+        if need and need not in contexts:
+            continue
+        need_site = f.get("site")
+        if need_site and need_site not in sites:
+            continue
+        return f
+    return None
+
+
+def run_traces(ctx, tdir):
+    files = sorted(glob.glob(os.path.join(tdir, "*.trace")))
+    viols, stats, stalls = [], [], []
+    for i in range(0, len(files), 400):
+        rc, out = sh([driver_exe(), "trace"] + files[i:i + 400], timeout=1800)
+        if rc != 0:
+            ctx.add_violation("monitor driver failed: " + out[-1500:], {"kind": "driver", "log": out[-3000:]}, no_input=True)
+            return [], [], []
+        for l in out.splitlines():
+            f = l.split("\t")
+            if f[0] == "VIOL":
+                viols.append({"path": f[1], "prop": f[2], "kind": f[3], "c": f[4], "r": f[5], "line": int(f[6])})
+            elif f[0] == "TRACE":
+                stats.append({"path": f[1], "events": int(f[2]), "frames": int(f[3]), "svc_events": int(f[4]), "q": int(f[5]),
+                              "viols": int(f[6]), "sites": f[7] if len(f) > 7 else ""})
+            elif f[0] == "STALL":
+                stalls.append(f[1])
+    return viols, stats, stalls
+
+
+def triage_gw(ctx, viols, stalls, stall_props=()):
+    """Attribute monitor violations of this property to known findings, report the rest."""
+    reported = set()
+    nk = 0
+    for v in viols:
+        if v["prop"] != ctx.pid:
+            continue
+        contexts, sites = viol_context(v["path"], v["c"], v["line"])
+        kf = match_known(ctx, ctx.pid, v["kind"], contexts, sites)
+        if kf:
+            ctx.add_known(kf["id"], kf["what"])
+            nk += 1
+            continue
+        key = (v["kind"],)
+        if key in reported:
+            continue
+        reported.add(key)
+        hist = v["path"][:-len(".trace")] + ".history.json"
+        keep = os.path.join(REPLAYS, "%s-%s" % (ctx.pid, os.path.basename(hist)))
+        try:
+            subprocess.run(["cp", hist, keep])
+            subprocess.run(["cp", v["path"], keep[:-len(".history.json")] + ".trace"])
+        except Exception:
+            pass
+        ctx.add_violation("%s: monitor %s on connection %s resource %s at trace line %d (contexts %s)" % (
+            ctx.pid, v["kind"], v["c"], v["r"], v["line"], ",".join(contexts) or "-"),
+            {"kind": "gw", "history": keep, "violation": v, "contexts": contexts})
+    if ctx.pid in stall_props:
+        for s in stalls[:1]:
+            hist = s[:-len(".trace")] + ".history.json"
+            keep = os.path.join(REPLAYS, "%s-stall-%s" % (ctx.pid, os.path.basename(hist)))
+            subprocess.run(["cp", hist, keep])
+            ctx.add_violation("gateway stalled (work pending, no worker runnable) in " + os.path.basename(s),
+                              {"kind": "gw", "history": keep, "stall": True})
+    return nk
+
+
+def stage_gw(ctx, profiles, stall_props=("C13", "C15", "C19")):
+    """Explore histories of the real gateway under the harness scheduler and evaluate the Coq monitors on the traces."""
+    rep = {"profiles": {}}
+    if ctx.replay:
+        payload = json.load(open(ctx.replay)).get("replay", {})
+        tdir = os.path.join(ctx.work, "replay")
+        rc, out = sh([os.path.join(BUILD, "gwrun"), "-replay", payload["history"], "-out", tdir], timeout=600)
+        viols, stats, stalls = run_traces(ctx, tdir)
+        triage_gw(ctx, viols, stalls, stall_props)
+        ctx.evaluations += 1
+        return {"replayed": payload["history"], "violations": [v for v in viols if v["prop"] == ctx.pid]}
+    for name, nq, nt in profiles:
+        n = ctx.q(nq, nt)
+        tdir = os.path.join(ctx.work, "traces-" + name)
+        rc, out = sh([os.path.join(BUILD, "gwrun"), "-seed", str(ctx.seed), "-n", str(n), "-profile", name, "-out", tdir], timeout=3000)
+        if rc != 0:
+            m = re.search(r"(panic:|fatal error:)[^\n]*", out)
+            ctx.add_violation("gateway harness crashed (the gateway process died or the harness panicked) in profile %s: %s" % (name, m.group(0) if m else out[:600]),
+                              {"kind": "crash", "profile": name, "seed": ctx.seed, "log": out[:6000] + "\n...\n" + out[-3000:]})
+            rep["profiles"][name] = {"error": out[-800:]}
+            continue
+        viols, stats, stalls = run_traces(ctx, tdir)
+        nk = triage_gw(ctx, viols, stalls, stall_props)
+        steps = sum(s["events"] for s in stats)
+        nontriv = sum(1 for s in stats if s["frames"] > 4 and s["q"] > 0)
+        site_free = sum(1 for s in stats if not s["sites"])
+        ctx.evaluations += len(stats)
+        ctx.nontrivial += nontriv
+        ctx.traces += len(stats)
+        rep["profiles"][name] = {"histories": len(stats), "trace_events": steps, "client_frames": sum(s["frames"] for s in stats),
+                                 "service_events": sum(s["svc_events"] for s in stats), "quiescent_points": sum(s["q"] for s in stats),
+                                 "histories_without_site_marks": site_free, "stalls": len(stalls),
+                                 "violations_all_properties": len(viols), "violations_this_property": sum(1 for v in viols if v["prop"] == ctx.pid),
+                                 "attributed_to_known_findings": nk}
+        if stats:
+            p = stats[0]["path"]
+            ls = [l for l in open(p).read().split("\n") if l and not l.startswith(("RAWOUT", "SNAP", "TRUTH"))]
+            ctx.sample({"profile": name, "trace_excerpt": ls[:25]}, cap=3)
+        subprocess.run(["rm", "-rf", tdir])
+    return rep
